@@ -86,6 +86,42 @@ class NativeSource:
         import io
         return io.StringIO()
 
+    _TOLERANT = {}
+
+    def tolerant_module(self, modqual):
+        """A repo module that cannot be IMPORTED in this environment (a third-party import fails), loaded mechanically
+        from its file: every top-level statement of the file is executed in order in one namespace; an import statement
+        that FAILS binds the names it would have bound to inert placeholder classes, any other top-level statement that
+        raises is skipped.  The text that runs is the repository's; what is dropped is exactly the list returned in
+        ``module.__dropped__`` (failing imports, skipped statements)."""
+        import ast, os, types
+        if modqual in NativeSource._TOLERANT:
+            return NativeSource._TOLERANT[modqual]
+        path = os.path.join(os.getcwd(), "inscripta", "biocantor", *modqual.split(".")) + ".py"
+        tree = ast.parse(open(path, encoding="utf-8").read())
+        mod = types.ModuleType("tolerant_" + modqual.replace(".", "_"))
+        mod.__file__ = path
+        ns = mod.__dict__
+        ns["__name__"] = "inscripta.biocantor." + modqual
+        dropped = []
+        import sys as _sys
+        _sys.modules.setdefault(mod.__name__, mod)  # dataclasses look the defining module up by name
+        for node in tree.body:
+            code = compile(ast.Module(body=[node], type_ignores=[]), path, "exec")
+            try:
+                exec(code, ns)
+            except Exception as ex:
+                if isinstance(node, (ast.Import, ast.ImportFrom)):
+                    for al in node.names:
+                        nm = (al.asname or al.name).split(".")[0]
+                        ns[nm] = type(nm, (), {"__doc__": "placeholder for a name whose import failed"})
+                    dropped.append(f"import line {node.lineno}: {type(ex).__name__}")
+                else:
+                    dropped.append(f"statement line {node.lineno}: {type(ex).__name__}: {ex}")
+        mod.__dropped__ = dropped
+        NativeSource._TOLERANT[modqual] = mod
+        return mod
+
     def extracted_fn(self, qual, stubs):
         """The function ``qual`` of a repo module that cannot be IMPORTED in this environment (missing third-party
         package), extracted mechanically: its FunctionDef is cut out of the file's AST and compiled in a namespace
